@@ -160,6 +160,8 @@ def process(unit_name, out_dir, mode='verify'):
     u = Unit(unit_name)
     out = []
     pending_subs = []
+    global_subs = []
+    counts = {}
     pending_meta = None
     section = 'common'
     i = 0
@@ -209,14 +211,41 @@ def process(unit_name, out_dir, mode='verify'):
             u.opts[toks[1]] = toks[2] if len(toks) > 2 else True
             continue
         if cmd == 'dep':
-            u.deps.append(st[len('//@ dep '):].strip())
+            u.deps.append(st[len('//@ dep '):].strip().replace('{REPO}', REPO))
+            continue
+        if cmd == 'shown-oracle':
+            import shown
+            out.append(shown.emit_oracle(os.path.join(REPO, 'crates/rs1090/src/decode/mod.rs'), os.path.join(REPO, 'crates/rs1090/src/decode/adsb.rs')))
+            u.extracted.append(dict(file='crates/rs1090/src/decode/mod.rs', item='serde attributes of enum DF / struct ADSB / struct ControlField (shown df / icao24 oracle)', lines=[0, 0], sha256_16='', rules={'RO': 1}))
+            u.rules.bump('RO')
+            continue
+        if cmd == 'path-include':
+            # the real file is compiled unmodified: `#[path = "<repo>/..."] mod NAME;`
+            rel, name = toks[1], toks[2]
+            pth = os.path.join(REPO, rel)
+            if not os.path.exists(pth):
+                raise ExtractError('source file missing: %s' % rel)
+            out.append('#[path = "%s"]\npub mod %s;' % (pth, name))
+            u.extracted.append(dict(file=rel, item='whole file, unmodified (#[path] include)', lines=[1, open(pth).read().count('\n')], sha256_16=sha(open(pth).read()), rules={}))
             continue
         if cmd == 'include':
             with open(os.path.join(SPECS, toks[1])) as f:
                 out.append(f.read())
             continue
         if cmd == 'sub':
-            pending_subs.append((toks[1], toks[2]))
+            rp = toks[2]
+            for ck, cv in counts.items():
+                rp = rp.replace('{%s}' % ck, str(cv))
+            pending_subs.append((toks[1], rp))
+            continue
+        if cmd == 'count':
+            # //@ count NAME PATH REGEX : number of matches of REGEX in the (comment-masked) source; usable as {NAME} in sub / gsub replacements
+            csrc = get_source(toks[2])
+            counts[toks[1]] = len(re.findall(toks[3], csrc.masked))
+            continue
+        if cmd == 'gsub':
+            # unit-wide substitution: applied to every following extract where it matches (counted as RS)
+            global_subs.append((toks[1], toks[2]))
             continue
         if cmd == 'repeat':
             # //@ repeat VAR A B   followed by lines `//@: text with {VAR}` (python-format, `{{`/`}}` for braces)
@@ -374,6 +403,9 @@ def process(unit_name, out_dir, mode='verify'):
             item = 'block in ' + fname
         else:
             raise ExtractError('unknown extract kind %s' % kind)
+        for (pa, rp) in global_subs:
+            text, n = re.subn(pa, rp, text)
+            u.rules.bump('RS', n)
         pending_subs = []
         applied = {k: v - before.get(k, 0) for k, v in u.rules.counts.items() if v - before.get(k, 0)}
         u.extracted.append(dict(file=rel, item=item, lines=list(lines_span), sha256_16=sha(raw), rules=applied))
